@@ -307,12 +307,17 @@ func scanPrecedes(fn *ssa.Function, loop rangeLoop, call *ssa.Call, flag *ssa.Pa
 func isSameTable(c *Ctx, rule string) {
 	p := c.P
 	c.note("%s identity-test: isSame — different tags: false; objects: identity of the map pointer; arrays: alias(a.Array, b.Array); alias compares the address of the last element of the full-capacity slices (shared backing storage), false for zero capacity.", rule)
+	// (the private helper alias is seen through: a tail call of a helper used nowhere else is expanded)
+	shared := "phi((&a.Array[0:cap(a.Array)][(cap(a.Array) - 1)] == &b.Array[0:cap(b.Array)][(cap(b.Array) - 1)]) | false)"
 	c.checkArm(rule, "isSame", p.LangFunc("isSame"), armSpec{
-		Results: []string{"false", "(a.Obj == b.Obj)", "lang.alias(a.Array, b.Array)"},
+		Results: []string{"false", "(a.Obj == b.Obj)", shared},
 		Effects: []string{},
-		Guards:  map[string][]string{"(a.Obj == b.Obj)": {"a.Tag == ValueObj", "a.Tag == b.Tag"}, "lang.alias(a.Array, b.Array)": {"a.Tag == ValueArray", "a.Tag == b.Tag"}},
+		Guards:  map[string][]string{"(a.Obj == b.Obj)": {"a.Tag == ValueObj", "a.Tag == b.Tag"}, shared: {"a.Tag == ValueArray", "a.Tag == b.Tag"}},
 		Source:  "identity test for containers (map pointer / shared slice backing)",
 	})
+	if p.LangFunc("alias") == nil {
+		return
+	}
 	c.checkArm(rule, "alias", p.LangFunc("alias"), armSpec{
 		Results: []string{"phi((&x[0:cap(x)][(cap(x) - 1)] == &y[0:cap(y)][(cap(y) - 1)]) | false)"},
 		Effects: []string{},
